@@ -435,6 +435,8 @@ def rule_c02(an, res):
             from rules_ttl import check_ord_witness_B
             check_ord_witness_B(an, res, prop, cm, roles)
         check_ctor_capacity(an, res, prop, cm, roles)
+        from rules_misc import check_ctor_shape
+        check_ctor_shape(an, res, prop, cm, roles)
 
 
 def where_of(m, seg):
@@ -568,10 +570,9 @@ def check_observer(res, prop, cm, roles, m, top):
     want = ''
     if m.name == 'size':
         want = 'the element counter' if roles.counter else 'the index size'
+        ok = isinstance(r, tuple) and r[0] == 'q' and r[1] == 'size' and r[2] == L.index and (r[4] or 0) == 0
         if roles.counter is not None:
-            ok = r == ld0(THIS(roles.counter))
-        else:
-            ok = isinstance(r, tuple) and r[0] == 'q' and r[1] == 'size' and r[2] == L.index and (r[4] or 0) == 0
+            ok = ok or r == ld0(THIS(roles.counter))     # |index| == counter is part of RI (R-BALANCE): either is truthful
     elif m.name == 'empty' and isinstance(r, tuple) and r[0] == 'bool' and top.cond('NONEMPTY') is not None:
         want = 'counter == 0'
         ok = r[1] == (not top.cond('NONEMPTY')) and len([c for c in top.conds if c[0] not in ('NONEMPTY',)]) == 0
@@ -584,11 +585,11 @@ def check_observer(res, prop, cm, roles, m, top):
             keys = list(atoms)
             if len(keys) == 1 and c == 0 and nop == '==':
                 a = keys[0]
-                ok = (a == cnt) or (isinstance(a, tuple) and a[0] == 'q' and a[1] == 'size' and a[2] == L.index and roles.counter is None)
+                ok = (a == cnt) or (isinstance(a, tuple) and a[0] == 'q' and a[1] == 'size' and a[2] == L.index)
             elif len(keys) == 1 and nop == '<=' and c == 0 and atoms[keys[0]] == 1:
                 a = keys[0]
                 ok = (a == cnt)      # used <= 0  <=> used == 0 for unsigned
-        elif isinstance(r, tuple) and r[0] == 'q' and r[1] == 'empty' and r[2] == L.index and roles.counter is None:
+        elif isinstance(r, tuple) and r[0] == 'q' and r[1] == 'empty' and r[2] == L.index:
             ok = True
     elif m.name == 'capacity':
         want = 'size of the fixed slot storage'
